@@ -8,7 +8,7 @@ WT=/tmp/mut/wt-$$
 mkdir -p /tmp/mut
 git -C /repo worktree add --detach -q "$WT" HEAD || exit 2
 trap 'git -C /repo worktree remove --force "$WT" 2>/dev/null; rm -rf /tmp/mut/vd-$$' EXIT
-git -C "$WT" apply "$PATCH" || { echo "PATCH DOES NOT APPLY"; exit 2; }
+git -C "$WT" apply "$PATCH" 2>/dev/null || git -C "$WT" apply -C1 --recount "$PATCH" 2>/dev/null || (cd "$WT" && patch -p1 --fuzz=3 -s < "$PATCH") || { echo "PATCH DOES NOT APPLY"; exit 2; }
 VD=/tmp/mut/vd-$$; mkdir -p $VD
 # scratch verif dir: same harness sources and known findings, own evidence/replays/.build
 for f in harness bin tools known_findings.json MANIFEST.json third_party; do ln -s /verif/$f $VD/$f; done
